@@ -87,6 +87,88 @@ Definition judge_prune (c o : sexp) : verdict :=
   | _, _, _, _, _, _ => VBad "undecodable prune case"
   end.
 
+(** several trees in one input file: one randomTips call per tree, in file order, on the
+    continuing stream
+      ((op prunemulti) (trees (("a" ...) ...)) (k K) (revert T|F) (seed S) (nraw R) (rc 0)
+       (remainings (("a" ...) ...)))                                                          *)
+Fixpoint multi_expected (k : nat) (rev : bool) (trees : list (list string)) (cs : list nat)
+  : option (list (list string)) :=
+  match trees with
+  | [] => Some []
+  | tips :: r =>
+    let nb := length (reservoir_bounds code_bound k (length tips)) in
+    match reservoir code_bound k tips (firstn nb cs) with
+    | None => None
+    | Some out =>
+      let sampled := filled out in
+      match multi_expected k rev r (skipn nb cs) with
+      | Some rest => Some ((if rev then sampled else sdiff tips sampled) :: rest)
+      | None => None
+      end
+    end
+  end.
+
+Definition dec_strss (s : sexp) : option (list (list string)) := dec_list dec_strings s.
+
+Definition judge_prunemulti (c o : sexp) : verdict :=
+  match (x <- get "trees" c ;; dec_strss x), get_nat "k" c, get_bool "revert" c,
+        (x <- get "remainings" c ;; dec_strss x), get_nat "rc" c, get_raw o with
+  | Some trees, Some k, Some rev, Some rems, Some rc, Some raw =>
+    let bounds := flat_map (fun tips => reservoir_bounds code_bound k (length tips)) trees in
+    match draws bounds raw with
+    | None => VBad "recorded stream too short"
+    | Some (cs, _) =>
+      match multi_expected k rev trees cs with
+      | None => VBad "model: choice vector too short"
+      | Some exp =>
+        if existsb (fun e => Nat.ltb (length (sset e)) 3) exp then VOk false "prunemulti:too-few-tips-left"
+        else if negb (Nat.eqb rc 0) then VCorr "the command failed"
+        else if list_eqb (fun a b => sset_eqb (sset a) (sset b)) exp rems
+             then VOk true (if rev then "prunemulti:keep" else "prunemulti:remove")
+             else VCorr ("model leaves " ++ concat_with " | " (map (concat_with ",") exp) ++
+                         "; gotree prune left " ++ concat_with " | " (map (concat_with ",") rems))
+      end
+    end
+  | _, _, _, _, _, _ => VBad "undecodable prunemulti case"
+  end.
+
+(** the uniform generator on the recorded stream: same structure (lengths are tied in C16)
+      ((op uniform) (n N) (rooted T|F) (seed S) (nraw R))   obs ((raw ..) (err "") (tree T))   *)
+Fixpoint skel_eqb (a b : utree) : bool :=
+  match a, b with
+  | UNode n1 _ s1, UNode n2 _ s2 =>
+    String.eqb n1 n2 &&
+    (fix go (l1 l2 : list slot) : bool :=
+       match l1, l2 with
+       | [], [] => true
+       | None :: r1, None :: r2 => go r1 r2
+       | Some (_, t1) :: r1, Some (_, t2) :: r2 => skel_eqb t1 t2 && go r1 r2
+       | _, _ => false
+       end) s1 s2
+  end.
+
+Definition judge_uniform (c o : sexp) : verdict :=
+  match get_nat "n" c, get_bool "rooted" c, get_raw o, get_string "err" o with
+  | Some n, Some rooted, Some raw, Some gerr =>
+    match run_plan (uniform_plan n rooted) 0 raw with
+    | None => VBad "recorded stream too short"
+    | Some (cs, _, _) =>
+      match uniform_tree n rooted cs [] with
+      | GErr m => if String.eqb gerr m then VOk false "uniform:rejected"
+                  else VCorr ("model error: " ++ m ++ " / implementation: " ++ gerr)
+      | GPanic => VBad "model panic"
+      | GOk t =>
+        if negb (String.eqb gerr "") then VCorr ("model: a tree; implementation refuses: " ++ gerr)
+        else match get_tree "tree" o with
+             | None => VBad "no tree in observation"
+             | Some g => if skel_eqb t g then VOk true (if rooted then "uniform:rooted" else "uniform:unrooted")
+                         else VCorr ("model: " ++ show_utree t)
+             end
+      end
+    end
+  | _, _, _, _ => VBad "undecodable uniform case"
+  end.
+
 (** same tree up to tip names *)
 Fixpoint same_shape (a b : utree) : bool :=
   match a, b with
@@ -159,6 +241,13 @@ Definition show_key (k : list (list string)) : string := concat_with ";" (map (c
 
 (** labelled topologies reached by the uniform generator over all choice vectors, against the
     full list of labelled topologies (from the enumerator's model, tips renamed Tip0..) *)
+(** the KNOWN defect of the rooted generator, exactly: it never inserts a tip above the initial
+    root, so it reaches the rooted topologies in which Tip0 and Tip1 are on different sides of
+    the root (no clade contains both), each of them equally often, and no other *)
+Definition known_rooted_marker : string := "KNOWN-ROOT-BRANCH".
+Definition separates_01 (key : list (list string)) : bool :=
+  negb (existsb (fun clade => smem (tip_name 0) clade && smem (tip_name 1) clade) key).
+
 Definition enum_uniform (n : nat) (rooted : bool) : option string :=
   let names := map tip_name (seq 0 n) in
   let outs := flat_map (fun cs => match uniform_tree n rooted cs [] with
@@ -167,7 +256,20 @@ Definition enum_uniform (n : nat) (rooted : bool) : option string :=
                        (all_choices (uniform_bounds n rooted)) in
   match all_topologies n rooted names with
   | Err m => Some m
-  | Ok ts => uniform_over key_eqb show_key (map (topo_key rooted) ts) outs
+  | Ok ts =>
+    let all := map (topo_key rooted) ts in
+    match uniform_over key_eqb show_key all outs with
+    | None => None
+    | Some msg =>
+      if rooted then
+        match uniform_over key_eqb show_key (filter separates_01 all) outs with
+        | None => Some (known_rooted_marker ++ " the generator is uniform on exactly the " ++
+                        string_of_nat (length (filter separates_01 all)) ++ " of " ++ string_of_nat (length all) ++
+                        " rooted topologies that separate Tip0 and Tip1 at the root (it never inserts above the root): " ++ msg)
+        | Some msg2 => Some ("not uniform, and not the known root-branch defect either: " ++ msg2)
+        end
+      else Some msg
+    end
   end.
 
 Fixpoint perms (l : list nat) (fuel : nat) : list (list nat) :=
@@ -206,6 +308,8 @@ Definition judge (c o : sexp) : verdict :=
   | Some op =>
     if String.eqb op "sample" then judge_sample c o
     else if String.eqb op "prune" then judge_prune c o
+    else if String.eqb op "prunemulti" then judge_prunemulti c o
+    else if String.eqb op "uniform" then judge_uniform c o
     else if String.eqb op "shuffle" then judge_shuffle c o
     else judge_enum op c
   | None => VBad "no op"
